@@ -31,8 +31,10 @@ import (
 	"path/filepath"
 	"reflect"
 	"runtime/debug"
+	"runtime/metrics"
 	"strconv"
 	"strings"
+	"sync"
 	"syscall"
 	"time"
 
@@ -46,6 +48,7 @@ const (
 	nGenShards  = 32
 	maxRestarts = 12
 	progSize    = 2 << 20
+	heapGuard   = 600 << 20
 )
 
 func main() {
@@ -98,7 +101,7 @@ func main() {
 		DistinctNontrivial: nontriv,
 		Exhaustive:         false,
 		Rule: "cases are (target type, byte string) pairs and (target type, value) pairs over " + strconv.Itoa(len(targets)) + " target types. " +
-			"Byte strings: exhaustive enumeration of " + exh + " (each pair visited once; a type whose decoder killed the process is quarantined for the rest of that shard, see observed.pairs_skipped_quarantined_type); " +
+			"Byte strings: exhaustive enumeration of " + exh + " (each pair visited once; a type whose decoder killed a child process is quarantined for the rest of that shard and in shards started later, see observed.pairs_skipped_quarantined_type); " +
 			"one mutation of each of " + strconv.Itoa(len(mutKinds)) + " kinds of the reference encoding of seeded boundary-biased values; " +
 			"structure-aware headers claiming sizes up to 2^64-1 (bare and wrapped in lists), deep nesting, many tiny elements. " +
 			"Non-trivial = pairs the decoder accepted (oracles 2,3,5 apply) + pairs it rejected although the string is one canonical item (observed.accepted / observed.rejected_grammatical over all workloads); distinct_nontrivial = observed.exh_nontrivial_pairs (exhaustive pairs are distinct by construction) " +
@@ -200,7 +203,9 @@ func readProg(dir string) (flushed uint64, c *Case) {
 // last flushed unit with the offending type quarantined.
 func supervise(r *mon.Run, mode string, shard int, to time.Duration) {
 	start := uint64(0)
-	skip := []string{}
+	quarMu.Lock()
+	skip := append([]string{}, quarantined...) // types already seen to kill a child are not run again in later shards
+	quarMu.Unlock()
 	for attempt := 0; ; attempt++ {
 		dir := filepath.Join(mon.WorkDir(), fmt.Sprintf("%s-%d-%d", mode, shard, attempt))
 		sk, _ := json.Marshal(skip)
@@ -242,8 +247,25 @@ func supervise(r *mon.Run, mode string, shard int, to time.Duration) {
 			return
 		}
 		skip = append(skip, typ)
+		quarMu.Lock()
+		quarantined = appendUnique(quarantined, typ)
+		quarMu.Unlock()
 		start = flushed
 	}
+}
+
+var (
+	quarMu      sync.Mutex
+	quarantined []string
+)
+
+func appendUnique(l []string, s string) []string {
+	for _, x := range l {
+		if x == s {
+			return l
+		}
+	}
+	return append(l, s)
 }
 
 func modeOf(c *Case) string {
@@ -307,12 +329,25 @@ func unitDone(r *mon.Run) {
 }
 
 func child(r *mon.Run, args []string) {
-	// the live heap of a child is tiny; without this the collector runs every few MB of garbage
-	debug.SetGCPercent(400)
+	// the live heap of a child is small; collect less often than the default
+	debug.SetGCPercent(200)
 	// memory guard: a decoder that trusts a declared length (or loops without consuming input) must
-	// kill this child ("out of memory" -> reported by the parent with the case in flight), not the machine
-	lim := uint64(2) << 30
+	// kill this child -- reported by the parent with the case in flight -- not the machine. A watchdog
+	// goroutine ends the process with all stacks once the heap exceeds what any legitimate decode of
+	// a <= 1 MiB input can need; the address-space limit is the hard backstop behind it.
+	lim := uint64(8) << 30
 	syscall.Setrlimit(syscall.RLIMIT_AS, &syscall.Rlimit{Cur: lim, Max: lim})
+	debug.SetTraceback("all")
+	go func() {
+		s := []metrics.Sample{{Name: "/memory/classes/heap/objects:bytes"}}
+		for {
+			time.Sleep(20 * time.Millisecond)
+			metrics.Read(s)
+			if v := s[0].Value.Uint64(); v > heapGuard {
+				panic(fmt.Sprintf("C08 memory guard: out of memory: heap objects %d bytes > %d", v, uint64(heapGuard)))
+			}
+		}
+	}()
 	for i, tg := range targets {
 		tg.idx = i
 	}
